@@ -17,6 +17,7 @@ BASE_CFG = dict(
     steps=(3, 14), qubits=4, p_sub=0.0, max_depth=0, p_rel=0.0, rel_types=["FOLLOWED_BY", "JOINED_START", "JOINED_END"],
     reps=[1], p_reg_reps=0.0, p_reg_dur=0.15, p_cfg_kind=0.35, p_zero_dur=0.1, kinds=None, p_measure=0.08,
     sub_steps=(1, 6), measure_reg_of=False, p_barrier_rel=0.5, fields=False, p_declare_register=0.0,
+    p_block_rel=0.0, block_rel_types=["FOLLOWED_BY", "JOINED_START"],
 )
 
 CLASSES: Dict[str, Dict[str, Any]] = {
@@ -28,6 +29,8 @@ CLASSES: Dict[str, Dict[str, Any]] = {
     "nested_implicit": dict(p_sub=0.3, max_depth=3, reps=[1, 1, 2, 3, 4], p_reg_reps=0.2, steps=(2, 8)),
     "nested_explicit": dict(p_sub=0.3, max_depth=2, reps=[1, 2, 3], steps=(2, 8), p_rel=0.4),
     "measure": dict(p_sub=0.3, max_depth=3, reps=[1, 1, 2, 3], p_measure=0.5, steps=(2, 8), measure_reg_of=True, qubits=4, p_declare_register=0.25),
+    "block_explicit": dict(p_sub=0.4, max_depth=2, reps=[1, 1, 2, 3], steps=(3, 8), p_rel=0.25, p_block_rel=0.6, p_cfg_kind=0.7),
+    "block_explicit_je": dict(p_sub=0.5, max_depth=1, reps=[1, 1, 2], steps=(3, 6), p_rel=0.2, p_block_rel=0.9, block_rel_types=["JOINED_END"], p_cfg_kind=0.8),
     "wide": dict(qubits=10, steps=(12, 30), p_rel=0.2, p_sub=0.1, max_depth=1, reps=[1, 2], sub_steps=(2, 6)),
     "long": dict(qubits=3, steps=(40, 110), p_rel=0.1),
     "deepnest": dict(p_sub=0.45, max_depth=5, steps=(1, 4), sub_steps=(1, 3), reps=[1, 1, 2, 3], p_reg_reps=0.2, p_rel=0.15),
@@ -135,7 +138,11 @@ def gen_circuit(rng: random.Random, cfg: Dict[str, Any], depth: int = 0) -> Dict
     steps: List[Dict[str, Any]] = []
     for _ in range(n):
         if depth < cfg["max_depth"] and rng.random() < cfg["p_sub"]:
-            steps.append({"sub": gen_circuit(rng, cfg, depth + 1)})
+            step = {"sub": gen_circuit(rng, cfg, depth + 1)}
+            if steps and cfg.get("p_block_rel") and rng.random() < cfg["p_block_rel"]:
+                # the sub-circuit itself carries an explicit relation to an earlier entry of this level
+                step["rel"] = [rng.choice(cfg["block_rel_types"]), rng.randrange(len(steps))]
+            steps.append(step)
         else:
             steps.append(gen_leaf(rng, cfg, len(steps), depth))
     if depth == 0:
